@@ -108,6 +108,13 @@ def apply_op(env: Env, op):
     cfg = cls(env.fns[op['fn']], *args, **kwargs)
     env.cfgs.append(cfg)
     return C.canon(cfg)
+  if k == 'temp':
+    # a short-lived configuration of a callable that nothing else configures:
+    # whatever is cached per callable comes and goes with it
+    c = fdl.Config(env.fns[op['fn']], uid=op['uid'], x=op.get('x', 0))
+    out = C.canon(c)
+    del c
+    return out
   if k == 'suspend_enter':
     if len(env.suspend) >= 2:
       return 'skip'
